@@ -6,7 +6,7 @@ _RAW = ["wlb", "mapop", "mapmsg", "lanereq-v", "lanereq-m", "laneresp-v", "laner
 PROP = {
     "generated": ["WireConsts"],
     "lean_modules": ["SwimVerif.Model.Frames", "SwimVerif.Model.FrameCodecs", "SwimVerif.Model.FramesMon",
-                     "SwimVerif.Proofs.Frames", "SwimVerif.Proofs.FrameCodecs", "SwimVerif.Proofs.FrameSafety", "SwimVerif.Proofs.FrameCommand", "SwimVerif.Generated.WireConsts"],
+                     "SwimVerif.Proofs.Frames", "SwimVerif.Proofs.FrameCodecs", "SwimVerif.Proofs.FrameSafety", "SwimVerif.Proofs.FrameCommand", "SwimVerif.Model.FrameDiscard", "SwimVerif.Proofs.FrameDiscard", "SwimVerif.Generated.WireConsts"],
     # `cases` = message sequences (1-6 messages); a `valid` sequence expands to EVERY single split point plus four
     # random multi-splits (1, <=3, <=9, <=40 bytes per read); a `mutate` sequence to ten mutated streams.
     "engines": [
@@ -19,6 +19,10 @@ PROP = {
          "modes": ["monitor"], "cases": {"quick": 220, "thorough": 5500}, "gen_args": ["typed", "valid"]},
         {"name": "typed-bare", "crate": "core", "bin": "sv-c10", "machine": "c10", "min_shard": 20,
          "modes": ["monitor"], "cases": {"quick": 88, "thorough": 2200}, "gen_args": ["typedbare", "valid"]},
+        # one byte of the Recon text of a body / key / value corrupted, every length intact: the damaged frame gives
+        # one outcome, every other frame is decoded exactly (every single split + multi-splits)
+        {"name": "typed-resync", "crate": "core", "bin": "sv-c10", "machine": "c10", "min_shard": 20,
+         "modes": ["monitor"], "cases": {"quick": 220, "thorough": 5500}, "gen_args": ["typed", "resync"]},
         {"name": "typed-mutate", "crate": "core", "bin": "sv-c10", "machine": "c10", "min_shard": 20,
          "modes": ["monitor"], "cases": {"quick": 330, "thorough": 8250}, "gen_args": ["typed", "mutate"]},
     ],
